@@ -63,6 +63,8 @@ def gen_versions(t, outdir):
 
 
 def compile_gen(chk, name):
+    if common.CHILD:
+        return                       # extra-seed workers do not re-check proofs (the parent does)
     ok, out = common.coqc(os.path.join(chk.gen_dir, name + '.v'), extra_q=[(chk.gen_dir, 'Gen')], cwd=chk.gen_dir)
     if not ok:
         raise RuntimeError('generated file %s.v does not compile: %s' % (name, out[-1500:]))
